@@ -236,6 +236,7 @@ theorem removeLiquidity_solv {s s' : St} {signer sym : String} {w : Nat}
   obtain ⟨⟨nD, eD⟩, _, h⟩ := bind_ok h
   obtain ⟨⟨wN, wE, left⟩, _, h⟩ := bind_ok h
   obtain ⟨_, _, h⟩ := bind_ok h
+  obtain ⟨_, _, h⟩ := bind_ok h
   obtain ⟨pool', hpa, h⟩ := bind_ok h
   exact finishRemoval_solv hinv (optR_ok hp) (poolAfterRemoval_spec (liftM_ok hpa)) h
 
@@ -248,6 +249,7 @@ theorem removeLiquidityUnits_solv {s s' : St} {signer sym : String} {w : Nat}
   obtain ⟨_, _, h⟩ := bind_ok h
   obtain ⟨⟨nD, eD⟩, _, h⟩ := bind_ok h
   obtain ⟨⟨wN, wE, left⟩, _, h⟩ := bind_ok h
+  obtain ⟨_, _, h⟩ := bind_ok h
   obtain ⟨_, _, h⟩ := bind_ok h
   obtain ⟨pool', hpa, h⟩ := bind_ok h
   exact finishRemoval_solv hinv (optR_ok hp) (poolAfterRemoval_spec (liftM_ok hpa)) h
